@@ -13,8 +13,9 @@ package receiver
 // code's own constants (MaxTCPFrameBody, receive buffer = 4+MaxTCPFrameBody):
 //   declared length  {0, 1, |valid JSON packet|, |valid TL packet|, max-1, max, max+1 .. max+5 (covers buffer size and
 //                     buffer size+1), 2*max, 2^20, 2^31-1, 2^31, 2^32-1}
-//   delivered bytes  {0, 1, declared-1, declared} for legal lengths; {0, 1, max-1, max, max+1, max+8, declared (<= 2^20)}
-//                     for oversized ones (fewer than / exactly / more than fits into the receive buffer)
+//   delivered bytes  {0, 1, declared-1, declared} for legal lengths; {0, 1, max-1, max, max+1, max+8, declared} for
+//                     max+1..max+5 (fewer than / exactly / more than fits into the receive buffer); {0, max+8, declared
+//                     (2^20 only)} for the far oversized ones
 //   body             a valid packet (padded with spaces), 0xff.., 0x00..
 // x 6 delivery plans (how the bytes arrive across Read calls: all at once, frame by frame, header and body apart,
 // header torn 1+3, body torn after its first byte, fixed 4099-byte segments); bytes of a following frame are "more
@@ -31,11 +32,12 @@ import (
 	"encoding/binary"
 	"errors"
 	"fmt"
-	"hash/fnv"
+	"hash/crc32"
 	"io"
 	"net"
 	"runtime/debug"
 	"strings"
+	"sync/atomic"
 	"time"
 
 	"github.com/VKCOM/statshouse/internal/data_model"
@@ -43,6 +45,10 @@ import (
 )
 
 const c13StallLimit = 3
+
+var c13FramingNanos atomic.Int64
+
+var c13Castagnoli = crc32.MakeTable(crc32.Castagnoli)
 
 var errC13Stuck = errors.New("verif: scripted connection: the receive loop makes no progress")
 
@@ -130,9 +136,7 @@ func (c *c13Conn) SetWriteDeadline(time.Time) error { return nil }
 type c13EventHandler struct{ ev *[]string }
 
 func c13PktKey(p []byte) string {
-	h := fnv.New64a()
-	h.Write(p)
-	return fmt.Sprintf("len=%d/fnv=%016x", len(p), h.Sum64())
+	return fmt.Sprintf("len=%d/crc=%08x/%08x", len(p), crc32.ChecksumIEEE(p), crc32.Checksum(p, c13Castagnoli))
 }
 
 func (h c13EventHandler) HandleMetrics(args data_model.HandlerArgs) {
@@ -220,13 +224,10 @@ func c13FramingAlphabet() []c13Frame {
 			}
 		}
 	}
-	over := []uint64{max + 1, max + 2, max + 3, max + 4, max + 5, 2 * max, 1 << 20, 1<<31 - 1, 1 << 31, 1<<32 - 1}
-	for _, l := range over {
-		ds := []int{0, 1, int(max) - 1, int(max), int(max) + 1, int(max) + 8}
-		if l <= 1<<20 {
-			ds = append(ds, int(l))
-		}
-		for _, d := range ds {
+	// oversized, at the boundary (max+1 .. max+5: up to the receive-buffer size and one beyond): every delivered amount
+	// around what the buffer can hold, every body kind
+	for _, l := range []uint64{max + 1, max + 2, max + 3, max + 4, max + 5} {
+		for _, d := range []int{0, 1, int(max) - 1, int(max), int(max) + 1, int(max) + 8, int(l)} {
 			if uint64(d) > l {
 				continue
 			}
@@ -238,35 +239,46 @@ func c13FramingAlphabet() []c13Frame {
 			}
 		}
 	}
+	// oversized, far from the boundary (incl. the values where a 32-bit int would overflow): nothing / more than the
+	// buffer holds / everything that was declared (2^20 only)
+	for _, l := range []uint64{2 * max, 1 << 20, 1<<31 - 1, 1 << 31, 1<<32 - 1} {
+		ds := []int{0, int(max) + 8}
+		if l <= 1<<20 {
+			ds = append(ds, int(l))
+		}
+		for _, d := range ds {
+			add(l, d, 2)
+		}
+	}
 	return out
 }
 
 func (f c13Frame) appendTo(w []byte, jsonPkt, tlPkt []byte) []byte {
 	w = binary.LittleEndian.AppendUint32(w, uint32(f.declared))
 	start := len(w)
+	if cap(w)-len(w) < f.delivered {
+		w = append(make([]byte, 0, 2*(len(w)+f.delivered)), w...)
+	}
+	w = w[:start+f.delivered]
+	body := w[start:]
+	fillByte, n := byte(' '), 0
 	switch f.fill {
-	case 0, 1:
-		pkt := jsonPkt
-		if f.fill == 1 {
-			pkt = tlPkt
-		}
-		for i := 0; i < f.delivered; i++ {
-			if i < len(pkt) {
-				w = append(w, pkt[i])
-			} else {
-				w = append(w, ' ')
-			}
-		}
+	case 0:
+		n = copy(body, jsonPkt)
+	case 1:
+		n = copy(body, tlPkt)
 	case 2:
-		for i := 0; i < f.delivered; i++ {
-			w = append(w, 0xff)
-		}
+		fillByte = 0xff
 	default:
-		for i := 0; i < f.delivered; i++ {
-			w = append(w, 0)
+		fillByte = 0
+	}
+	if n < len(body) {
+		rest := body[n:]
+		rest[0] = fillByte
+		for k := 1; k < len(rest); k *= 2 { // doubling copy
+			copy(rest[k:], rest[:k])
 		}
 	}
-	_ = start
 	return w
 }
 
@@ -473,6 +485,8 @@ func c13FramingUnits(rep *mc.Report, stats *[]c13FramingStats) (units []c13Unit)
 	for fi := range alphabet {
 		fi := fi
 		units = append(units, c13Unit{run: func(u *c13UnitCtx) {
+			t0 := time.Now()
+			defer func() { c13FramingNanos.Add(int64(time.Since(t0))) }() // for the log line only
 			st := &(*stats)[fi]
 			refCache := map[string][]string{}
 			buf := make([]byte, 0, 1<<17)
